@@ -17,6 +17,8 @@ import Exetera.Gen.Constants
   * The streamed generators are `Join.streamed` (C03), the column mappers `MapValid.*` (C04) — reused, not duplicated.
   * `pandas.merge` is a parameter: a function returning the list of (left row | NaN, right row | NaN) pairs in pandas' order.
   * The destination frame is assumed empty on entry; creating a field whose name exists is the `ValueError` of `create_like`.
+  * Fix NC02b is modelled: `merge` computes every destination name up front (`allDestNames`: the four names it reserves for
+    fields of its own plus the suffixed names of the mapped fields) and raises `ValueError` on a clash, before either path runs.
 -/
 namespace Exetera.Merge
 
@@ -429,6 +431,18 @@ def isOrdered (i : Input) : Bool :=
   i.hintLO.getD false && i.hintRO.getD false && i.leftOn.length == 1 && i.rightOn.length == 1 &&
     ["left", "right", "inner"].contains i.how
 
+/-- `len(set(names)) == len(names)` -/
+def allDistinct : List String → Bool
+  | [] => true
+  | x :: xs => !xs.contains x && allDistinct xs
+
+/-- `dest_names` of `merge` (fix NC02b): the four names `merge` reserves for fields of its own, then every mapped field under
+    its (suffixed) destination name -/
+def allDestNames (i : Input) (leftToMap rightToMap : List String) : List String :=
+  ["_left_map", "_right_map", "valid" ++ i.leftSuffix, "valid" ++ i.rightSuffix]
+    ++ leftToMap.map (fun k => if rightToMap.contains k then k ++ i.leftSuffix else k)
+    ++ rightToMap.map (fun k => if leftToMap.contains k then k ++ i.rightSuffix else k)
+
 def merge (pandas : String → List Int → List Int → Except Err Pairs) (i : Input) (cs vf fuel : Nat) : Except Err Frame :=
   if !(supportedModes.contains i.how) then .error (.valueError "'how' must be one of …") else
   match validateKeyConsistency i.leftTuple i.rightTuple i.leftOn i.rightOn with
@@ -450,7 +464,9 @@ def merge (pandas : String → List Int → List Int → Except Err Pairs) (i : 
   | .ok ll', .ok rl' =>
   match ll'.head?, rl'.head? with
   | some leftLen, some rightLen =>
-    if isOrdered i then
+    if !(allDistinct (allDestNames i leftToMap rightToMap)) then
+      .error (.valueError "merge would write more than one destination field named …")
+    else if isOrdered i then
       orderedMerge i leftToMap rightToMap leftLen rightLen (i.hintLU.getD false) (i.hintRU.getD false) cs vf fuel
     else unorderedMerge pandas i leftToMap rightToMap
   | _, _ => .error (.oob "list(left_lens)[0]")
